@@ -574,7 +574,7 @@ impl Check for RwCheck {
     }
     fn budget(&self, tier: Tier) -> u64 {
         match tier {
-            Tier::Quick => 12_000,
+            Tier::Quick => 16_000,
             Tier::Thorough => 80_000,
         }
     }
@@ -1109,7 +1109,7 @@ impl Check for StopCheck {
     }
     fn budget(&self, tier: Tier) -> u64 {
         match tier {
-            Tier::Quick => 30_000,
+            Tier::Quick => 60_000,
             Tier::Thorough => 100_000,
         }
     }
